@@ -465,6 +465,76 @@ pub fn crosscheck() -> Result<usize, String> {
     Ok(found)
 }
 
+fn detail_of(r: &CaseResult) -> String {
+    format!(
+        "{} accepted a guard of a foreign collector in state {:?}{}: {} pointer loads were protected by it, {} objects were retired into it{}",
+        r.name,
+        r.state,
+        if r.stall > 0 { format!(" (writer stalled at its step {})", r.stall) } else { String::new() },
+        r.foreign_loads,
+        r.foreign_retires,
+        if r.changed { ", and the map's contents changed" } else { "" }
+    )
+}
+
+/// The same enumeration in the sibling binary that is built WITHOUT flurry's debug assertions
+/// (profile `release-nda`): a rejection that only exists as a `debug_assert!` protects nobody in
+/// a release build. Returns (cases, rejected, harmless, bad cases as (method, detail)).
+fn enumerate_without_debug_assertions() -> Result<(u64, u64, u64, Vec<(String, String)>), String> {
+    let me = std::env::current_exe().map_err(|e| e.to_string())?;
+    let sib = me.parent().and_then(|p| p.parent()).map(|p| p.join("release-nda").join("flurry-sim")).ok_or("no sibling directory")?;
+    if !sib.exists() {
+        return Err(format!("{} is missing (./check builds it with `cargo build --profile release-nda`)", sib.display()));
+    }
+    let out = std::process::Command::new(&sib).arg("c09-child").output().map_err(|e| e.to_string())?;
+    if !out.status.success() {
+        return Err(format!("the release-nda enumeration exited with {:?}", out.status.code()));
+    }
+    let text = String::from_utf8_lossy(&out.stdout);
+    let mut bad = Vec::new();
+    let mut sum = None;
+    for line in text.lines() {
+        if let Some(rest) = line.strip_prefix("BAD\t") {
+            if let Some((n, d)) = rest.split_once('\t') {
+                bad.push((n.to_string(), format!("[flurry built without debug assertions] {}", d)));
+            }
+        } else if let Some(rest) = line.strip_prefix("SUMMARY ") {
+            let f: Vec<u64> = rest.split_whitespace().filter_map(|x| x.parse().ok()).collect();
+            if f.len() == 4 {
+                sum = Some((f[0], f[1], f[2], f[3]));
+            }
+        }
+    }
+    match sum {
+        Some((n, rej, harmless, dbg)) if dbg == 0 => Ok((n, rej, harmless, bad)),
+        Some(_) => Err("the release-nda binary was built with flurry's debug assertions on".into()),
+        None => Err("the release-nda enumeration printed no summary".into()),
+    }
+}
+
+pub fn child_main() -> i32 {
+    crate::install_crash_handler();
+    sched::init();
+    let results = enumerate();
+    let mut rejected = 0;
+    let mut harmless = 0;
+    for r in &results {
+        if r.verdict_err.is_some() {
+            return 2;
+        }
+        let bad = !r.panicked && (r.foreign_loads > 0 || r.foreign_retires > 0 || r.changed);
+        if r.panicked {
+            rejected += 1;
+        } else if !bad {
+            harmless += 1;
+        } else {
+            println!("BAD\t{}\t{}", r.name, detail_of(r));
+        }
+    }
+    println!("SUMMARY {} {} {} {}", results.len(), rejected, harmless, flurry::verif::debug_assertions_on() as u64);
+    0
+}
+
 pub fn check(tier: &str) -> i32 {
     let t0 = std::time::Instant::now();
     crate::install_crash_handler();
@@ -502,15 +572,7 @@ pub fn check(tier: &str) -> i32 {
             samples.push(json!({"method": r.name, "state": format!("{:?}", r.state), "foreign_argument": r.which, "writer_stalled_at": r.stall, "panicked": r.panicked, "loads_through_foreign_guard": r.foreign_loads, "retires_with_foreign_guard": r.foreign_retires, "map_changed": r.changed}));
         }
         if bad {
-            let detail = format!(
-                "{} accepted a guard of a foreign collector in state {:?}{}: {} pointer loads were protected by it, {} objects were retired into it{}",
-                r.name,
-                r.state,
-                if r.stall > 0 { format!(" (writer stalled at its step {})", r.stall) } else { String::new() },
-                r.foreign_loads,
-                r.foreign_retires,
-                if r.changed { ", and the map's contents changed" } else { "" }
-            );
+            let detail = detail_of(r);
             let v = crate::oracle::Violation { class: "foreign-guard-accepted".into(), detail: detail.clone() };
             match crate::orch::match_known(&known, "C09", &v) {
                 Some(k) => {
@@ -523,6 +585,27 @@ pub fn check(tier: &str) -> i32 {
             }
         }
     }
+    let (nda_cases, nda_rejected, nda_harmless) = match enumerate_without_debug_assertions() {
+        Ok((n, rej, h, bad)) => {
+            for (name, detail) in bad {
+                let v = crate::oracle::Violation { class: "foreign-guard-accepted".into(), detail: detail.clone() };
+                match crate::orch::match_known(&known, "C09", &v) {
+                    Some(k) => {
+                        let line = format!("KNOWN-FINDING: property=C09 class={} {}", k.class, k.text);
+                        if !known_lines.contains(&line) {
+                            known_lines.push(line);
+                        }
+                    }
+                    None => violations.push((name, detail)),
+                }
+            }
+            (n, rej, h)
+        }
+        Err(e) => {
+            eprintln!("harness error: {}", e);
+            return 2;
+        }
+    };
     for l in &known_lines {
         println!("{}", l);
     }
@@ -530,7 +613,7 @@ pub fn check(tier: &str) -> i32 {
     let ev = json!({
         "property_id": "C09", "tier": tier, "seed": crate::orch::base_seed(), "level": "fault_enumeration", "wall_s": wall, "violations": violations.len(),
         "coverage": {
-            "evaluations": results.len(),
+            "evaluations": results.len() as u64 + nda_cases,
             "distinct_nontrivial": nontrivial.len(),
             "exhaustive": true,
             "rule": "one evaluation = one (public guard-taking method, structural state, which guard argument is foreign, stall point of the concurrent resizer) case executed on the real code as a simulated thread with the pointer seam recording the collector of every guard used; the table of methods is cross-checked against the pub fns in src/{map,set,map_ref,set_ref}.rs at start-up; non-trivial = the map is allocated (the call has memory to read); distinct = distinct case tuples",
@@ -539,6 +622,7 @@ pub fn check(tier: &str) -> i32 {
             "methods_in_table": map_methods().len() + set_methods().len(),
             "states": STATES.iter().map(|s| format!("{:?}", s)).collect::<Vec<_>>(),
             "calls_rejected_by_panic": rejected,
+            "second_pass_without_flurry_debug_assertions": {"cases": nda_cases, "calls_rejected_by_panic": nda_rejected, "calls_that_returned_without_touching_memory_through_the_foreign_guard": nda_harmless},
             "calls_that_returned_without_touching_memory_through_the_foreign_guard": harmless,
             "faults": {"foreign_guard": {"fired": results.len()}, "stall": {"fired": results.iter().filter(|r| r.stall > 0).count()}},
             "known_findings_hit": known_lines,
@@ -579,6 +663,16 @@ pub fn replay(v: &Value) -> i32 {
             hit += 1;
             if hit <= 5 {
                 println!("REPRODUCED property=C09 class=foreign-guard-accepted {} in state {:?}", r.name, r.state);
+            }
+        }
+    }
+    if let Ok((_, _, _, bad)) = enumerate_without_debug_assertions() {
+        for (name, _) in bad {
+            if want.contains(&name) {
+                hit += 1;
+                if hit <= 5 {
+                    println!("REPRODUCED property=C09 class=foreign-guard-accepted {} (flurry built without debug assertions)", name);
+                }
             }
         }
     }
